@@ -694,3 +694,43 @@ mod test {
         assert!(cb.packets.is_empty());
     }
 }
+
+/// Verification hooks (only with `--cfg libtw2_verif`): project the private
+/// state of a `Net` and choose the next peer ID.
+#[cfg(libtw2_verif)]
+pub mod verif {
+    use super::Address;
+    use super::Net;
+    use super::PeerId;
+    use crate::connection::verif::VerifState;
+
+    pub struct VerifPeer<A: Address> {
+        pub pid: PeerId,
+        pub addr: A,
+        pub token: bool,
+        pub conn: VerifState,
+    }
+
+    impl<A: Address> Net<A> {
+        pub fn verif_peers(&self) -> Vec<VerifPeer<A>> {
+            self.peers
+                .iter()
+                .map(|(pid, p)| VerifPeer {
+                    pid: pid,
+                    addr: p.addr,
+                    token: p.token,
+                    conn: p.conn.verif_state(),
+                })
+                .collect()
+        }
+        pub fn verif_next_peer_id(&self) -> PeerId {
+            self.peers.next_peer_id
+        }
+        pub fn verif_set_next_peer_id(&mut self, pid: PeerId) {
+            self.peers.next_peer_id = pid;
+        }
+        pub fn verif_accept_connections(&self) -> bool {
+            self.accept_connections
+        }
+    }
+}
